@@ -166,6 +166,13 @@ def handleC07 (toks : List String) : String :=
         pure ({ prop := prop, names := names, unit := unit } : ColSpec)
       let s ← pSys; let u ← pUnits
       pure (f, header, cols, s, u)) rest fun (f, header, cols, s, u) => showRes (writeTable s cols u f header)
+  | "ptable" :: rest =>
+    run (do let hdr ← pBool; let t ← pHex; pure (hdr, t)) rest fun (hdr, t) =>
+      match parseTable t hdr with
+      | none => err "format"
+      | some p =>
+        "ok " ++ (match p.columns with | some l => joinToks l | none => "-") ++ " " ++ toString p.rows.length ++
+          String.join (p.rows.map fun r => " " ++ toString r.length ++ (if r = [] then "" else " " ++ showRats r))
   | "poscar" :: rest =>
     run (do
       let f ← pFmt; let cstyle ← tok; let scale ← pRat
